@@ -13,7 +13,7 @@ RULE = ("programs from the core grammar extended with every printing element (, 
         "side effects, alone and behind a literal-looking prefix such as 1/2, [1,2], 'a', 0x10); each case runs in a child process under sys.addaudithook with fd-level capture of the host's stdout. Oracles: the host's "
         "stdout stays empty; no compile / exec audit event carries the marker anywhere but inside a string constant of generated code; no "
         "input() / os.system / subprocess / socket event; an exception ends in the error record and exit status, not in a traceback; the output "
-        "record equals what the same program prints offline. Non-trivial = distinct (program, inputs).")
+        "record is not missing anything the same program prints offline (as many lines, not empty when the offline output is not). Non-trivial = distinct (program, inputs).")
 TRUSTED = ["T8 dynamic ways of reaching eval that are not syntactic calls are outside the sink inventory; the audit-hook runs are the backstop"]
 MARK = "TAINT7731"
 FORBIDDEN_EVENTS = ("os.system", "subprocess.Popen", "socket.connect", "os.exec", "os.posix_spawn", "urllib.Request")
@@ -138,7 +138,10 @@ def judge(case, on, off):
         # C19 says that everything printed is collected in the record — not that the record equals the offline output: a value
         # that passes through vy_eval legitimately differs between the modes (`-J,` on 9, 8: `9-1` online, 8 offline). What is
         # demanded is that nothing the offline run prints is *missing* from the record: as many lines, and no shorter.
-        if on["rec"] != off["host"] and (on["rec"].count("\n") < off["host"].count("\n") or (off["host"].strip() and not on["rec"].strip())):
+        # (the line count is not compared under the flags that lay a value out character by character — j J L C — where a value that
+        # legitimately differs also differs in its number of lines: the input 1/3 is the text `1/3` online and 0.333… offline)
+        fewer = on["rec"].count("\n") < off["host"].count("\n") and not (set(case.get("flags", "")) & set("jJLC"))
+        if on["rec"] != off["host"] and (fewer or (off["host"].strip() and not on["rec"].strip())):
             return False, f"output is missing from the record: record {on['rec'][:100]!r}, offline stdout {off['host'][:100]!r}"
     return True, on["status"]
 
@@ -160,6 +163,44 @@ TAINTS = [f"print('{MARK}')", f"__import__('os').system('echo {MARK}')", f"{MARK
 PREFIXES = ["1", "1/2", "-3", "3.5", "1e3", "[1,2]", "'a'", '"a"', "1,2", "0x10", "(1)", "True", " 7", "1 / 2", "12/34"]
 TAILS = ["+0*len([print('%s')])", " and print('%s')", "if print('%s') else 0", "+[print('%s')]", "*(print('%s') or 1)", "**print('%s')"]
 PREFIXED = [p + (t % MARK) for p in PREFIXES for t in TAILS]
+
+
+# ---- the widened search's element sweep: a tainted input handed to EVERY element of the regenerated table, at every argument
+# position, next to number fillers and next to string fillers.  It exists so that a new evaluation path inside an element (the
+# sink inventory `sinks_accounted` breaks on it) is reported with a concrete input instead of no-failing-input-found.
+# The payloads only ever call print(): an evaluated payload shows up on the host's stdout.
+SWEEP_TAINTS = [f"print('{MARK}')", f"*(print('{MARK}') or 1)*", f"1+len([print('{MARK}')])"]
+# Elements that evaluate text BY DESIGN on the unchanged tree — outside what C19 states (it names the evaluate element, the call
+# element on a string and input parsing) and audited one by one in Proofs/C19.lean `audited` (classes symbolicMath / numericText:
+# sympy.sympify / parse_expr of an expression the program hands to a calculus element), plus the http element.  Established by
+# running this sweep on the unchanged tree (DESIGN §11.4); an element outside this list that evaluates text is a new path.
+SWEEP_BY_DESIGN = {k: "calculus / symbolic-math element: a string argument is an expression, read with sympy (audited: helpers.make_expression, "
+                      "helpers.local_minima / local_maxima / stationary_points — class symbolicMath)"
+                   for k in ["∆²", "∆c", "∆C", "∆s", "∆S", "∆t", "∆T", "∆q", "∆Q", "∆i", "∆ė", "∆Ė", "∆K", "∆e", "∆E", "∆L", "∆l", "∆τ", "∆D",
+                             "∆R", "∆Ṗ", "∆ṗ", "∆p", "∆ṫ", "∆¢", "∆ṁ", "∆Ṁ"]}
+SWEEP_BY_DESIGN["øḋ"] = "to decimal: str(eval(sympy.pycode(lhs))) — pycode sympifies a string argument (audited: template:øḋ)"
+
+
+def element_sweep_cases(gen, exclude=True):
+    cases = []
+    for e in gen["elements"]:
+        k, a = e["key"], e["arity"]
+        if not isinstance(a, int) or a < 1 or a > 3:
+            continue
+        if exclude and k in SWEEP_BY_DESIGN:
+            continue
+        for fill in (["1444", "44"], ["`a1`", "`1`"]):
+            for pos in range(a):
+                args, f = [], 0
+                for i in range(a):
+                    if i == pos:
+                        args.append("?")
+                    else:
+                        args.append(fill[f % 2]); f += 1
+                prog = " ".join(args) + " " + k
+                for t in SWEEP_TAINTS:
+                    cases.append({"prog": prog, "inputs": [t], "compare": False, "elem": k})
+    return cases
 
 
 def run(ctx, widen=False):
@@ -190,6 +231,13 @@ def run(ctx, widen=False):
     for flags in ["", "j", "s", "W", "c", "O", "o"]:
         cases.append({"prog": "⟨1|2|3⟩", "inputs": [], "flags": flags, "compare": flags != "c"})   # `c` shows the code: stdout offline, error record online
         cases.append({"prog": "`" + MARK + "`", "inputs": [], "flags": flags, "compare": False})
+    # (c2) every flag that changes how values are produced or printed, on integers, non-integers (the `ḋ` flag turns those into
+    # Python floats on their way to the record), strings and lists, through every printing element and the implicit output
+    all_flags = list("jsdṪLSCGgWṡJ…lḋHMṀmrRDVtP?23aṠOo")
+    fvals = ["1 4/", "0.5", "2√", "5", "3 7/ 2", "`ab`", "⟨1|2.5|3⟩", "?"]
+    fprints = ["", ",", "…", "₴", "¨,"]
+    grid = [{"prog": v + pr, "inputs": ["3", "7"], "flags": fl, "compare": True} for fl in all_flags for v in fvals for pr in fprints]
+    cases += grid if thorough else rng.sample(grid, 40) + [c for c in grid if c["flags"] == "ḋ" and c["prog"] in ("1 4/,", "0.5", "2√…", "?₴")]
     # (e) inputs / evaluated strings that ARE Python literals but not Vyxal values, or that strain the literal reader: the
     # input reader must keep them as text or read them as values — never let an exception out
     odd = ["None", "...", "[1, None, 'x']", "{['x']: 2}", "1e999", "-1e999", "1j", "b'ab'", "{1, 2}", "{'a': 1}", "(1, 2)", "()", "[[]]",
@@ -246,6 +294,26 @@ def run(ctx, widen=False):
     ctx.sample(cases[-1])
 
 
+def sweep(ctx):
+    """tainted input through every element (see SWEEP_BY_DESIGN); only ever run by the widened search"""
+    import concurrent.futures as cf
+    cases = element_sweep_cases(ctx.gen)
+    ctx.bump("sweep-cases", len(cases))
+    batches = [cases[i:i + 40] for i in range(0, len(cases), 40)]
+
+    def work(batch):
+        return list(zip(batch, run_cases([dict(c, online=True) for c in batch])))
+    with cf.ThreadPoolExecutor(max_workers=8) as ex:
+        for pairs in ex.map(work, batches):
+            for c, on in pairs:
+                ctx.count("oracle:online_contained(sweep)")
+                ok, detail = judge(c, on, None)
+                if not ok:
+                    ctx.violation("online_contained", c, "element sweep of the widened search (a new evaluation path inside an element): " + detail)
+
+
 def search(ctx):
     if ctx.tier != "thorough":
         run(ctx, widen=True)
+    if not ctx.violations:
+        sweep(ctx)
